@@ -467,6 +467,14 @@ fn case_declared_lengths(_input: &Input, ctx: &mut Ctx) -> CaseResult {
         vec![0x00, 0x01, 0x00, 0x01, 0x02, 0x80],
         vec![0x00, 0x01, b't', 0x00, 0x01, 0x00, b'p', b'q'],
         vec![0xFF; 9],
+        // reason codes that are legal for one group of acks only, with and without a property section
+        vec![0x00, 0x01, 0x92],
+        vec![0x00, 0x01, 0x92, 0x00],
+        vec![0x00, 0x01, 0x10, 0x00],
+        vec![0x00, 0x01, 0x91, 0x00],
+        vec![0x00, 0x01, 0x80],
+        vec![0x18, 0x00],
+        vec![0x8E, 0x00],
     ];
     let big: [usize; 9] = [1 << 16, (1 << 28) - 1, 1 << 28, 1 << 31, 1usize << 32, 1usize << 45, isize::MAX as usize, (isize::MAX as usize) + 3, usize::MAX];
     for b in &bodies {
@@ -517,12 +525,21 @@ fn case_declared_lengths(_input: &Input, ctx: &mut Ctx) -> CaseResult {
             let _ = block_on(v5::Disconnect::decode_async(&mut r, h(T::Disconnect)));
             let mut r: &[u8] = b;
             let _ = block_on(v5::Auth::decode_async(&mut r, h(T::Auth)));
-            // headers whose type does not match the decoder they are given to
-            let mut r: &[u8] = b;
-            let _ = block_on(v5::Puback::decode_async(&mut r, h(T::Publish)));
-            let mut r: &[u8] = b;
-            let _ = block_on(v5::Publish::decode_async(&mut r, h(T::Auth)));
-            calls += 14;
+            // headers whose type does not match the decoder they are given to: every decoder with every header type
+            // (for the two smallest and the exact remaining lengths; the others were run above with the matching type)
+            if rl <= 5 || rl == b.len() as u32 {
+                for t in [T::Connect, T::Connack, T::Publish, T::Puback, T::Pubrec, T::Pubrel, T::Pubcomp, T::Subscribe, T::Suback, T::Unsubscribe, T::Unsuback, T::Pingreq, T::Pingresp, T::Disconnect, T::Auth] {
+                    macro_rules! with_foreign_header {
+                        ($($d:ident),*) => {$(
+                            let mut r: &[u8] = b;
+                            let _ = block_on(v5::$d::decode_async(&mut r, h(t)));
+                            calls += 1;
+                        )*};
+                    }
+                    with_foreign_header!(Connect, Connack, Publish, Puback, Pubrec, Pubrel, Pubcomp, Subscribe, Suback, Unsubscribe, Unsuback, Disconnect, Auth);
+                }
+            }
+            calls += 12;
         }
     }
     ctx.more_evals(calls.saturating_sub(1));
